@@ -484,8 +484,27 @@ def run_case(case):
                         raw[k] = v if v.ndim > 0 or k.startswith("fields.") else v[()]
                     raw["props.capacity"] = int(raw["props.capacity"])
                     raw["props.n_occupied"] = int(raw["props.n_occupied"])
+                    # a loaded checkpoint (writable arrays) is a value: every store built from it starts from the
+                    # checkpointed state, whatever happened to the stores built from it before
+                    snap0 = impl_state(store, fields)
                     store = ArrayStore.from_raw_dict(raw)
                     its = {}  # iterators belong to the old object
+                    twin = ArrayStore.from_raw_dict(raw)
+                    if ref_cap > 0:
+                        free = [i for i in range(ref_cap) if i not in ref]
+                        tgt = free[0] if free else next(iter(ref))
+                        store.add(np.array([tgt], dtype=np.int32), make_rows(fields, [999]), {}, [])
+                        drv.ask(f"add - {tgt}:999")
+                        version[0] += 1
+                        gsizes.append(0 if tgt in ref else 1)
+                        ref[tgt] = 999
+                        if impl_state(twin, fields) != snap0:
+                            return Failure("oracle", f"{where}: two stores were built from one loaded raw dict; adding to the "
+                                           "first changed the second")
+                        if impl_state(ArrayStore.from_raw_dict(raw), fields) != snap0:
+                            return Failure("oracle", f"{where}: a store built from a loaded raw dict after another store "
+                                           "built from the same dict was modified does not reproduce the checkpointed "
+                                           "store (the dict is not treated as a value)")
                 else:
                     # direct round trip: an equivalent store, on which the rest of the history runs
                     other = ArrayStore.from_raw_dict(raw)
